@@ -24,12 +24,14 @@ void vf_on_event(int kind, int64_t a, int64_t b, int64_t c, int64_t d) {
     if (kind == EV_RUN) {
       int k = VF_CTX_RCG(c);
       if (k >= H_NC) { n_template_runs++; return; }   /* a plugin ran without a ruleset cgroup being set */
-      if (a >= 100) { int ai = (int)a - 100; if (ai >= H_A) { n_other++; return; } put(&s_act[cur_t][k][ai], b, c, d); }
-      else { int di = (int)a - 1; if (di < 0 || di >= H_D) { n_other++; return; } put(&s_det[cur_t][k][di], b, c, d); }
+      /* slots are addressed with constant indices (one guarded call per slot): a slot address with symbolic indices into
+       * these small nested arrays made CBMC 6.11 report counterexamples that neither native build reproduces */
+      if (a >= 100) { int ai = (int)a - 100; if (ai >= H_A) { n_other++; return; } for (int t_ = 0; t_ < H_T; t_++) for (int k_ = 0; k_ < H_NC; k_++) for (int a_ = 0; a_ < H_A; a_++) if (t_ == cur_t && k_ == k && a_ == ai) put(&s_act[t_][k_][a_], b, c, d); }
+      else { int di = (int)a - 1; if (di < 0 || di >= H_D) { n_other++; return; } for (int t_ = 0; t_ < H_T; t_++) for (int k_ = 0; k_ < H_NC; k_++) for (int d_ = 0; d_ < H_D; d_++) if (t_ == cur_t && k_ == k && d_ == di) put(&s_det[t_][k_][d_], b, c, d); }
     } else {
       int k = (int)d; int ai = (int)a - 100;
       if (k < 0 || k >= H_NC || ai < 0 || ai >= H_A) { n_other++; return; }
-      put(&s_ctx[cur_t][k][ai], b, c, d);
+      for (int t_ = 0; t_ < H_T; t_++) for (int k_ = 0; k_ < H_NC; k_++) for (int a_ = 0; a_ < H_A; a_++) if (t_ == cur_t && k_ == k && a_ == ai) put(&s_ctx[t_][k_][a_], b, c, d);
     }
     return;
   }
